@@ -137,16 +137,56 @@ def run(ck: Check, prog: Program) -> None:
         if not fwd:
             ck.finding('FWD-PARAM', m.qualname, 'exclude not forwarded', m.module.rel, m.node.lineno,
                        f'{mname} does not pass `exclude` on to _build_params_model: the context parameter is documented')
-    # REQ-DEFAULT
+    # REQ-DEFAULT (value flow: the second element of the stored field definition is the parameter's default on the paths where
+    # it has one, Ellipsis = "required" where it has none; conditional expression or default + override alike)
+    from ..cfg import CFG as _CFG
+    from ..flow import Flow
+    cfg_b = _CFG(bpm, prog)
+    fl_b = Flow(cfg_b)
+
+    def _leafs(node, e):
+        return [al.expr for al in fl_b.alts(node, e)]
+
+    def _is_empty_ref(node, e) -> bool:
+        ls = _leafs(node, e)
+        return bool(ls) and all((dotted(x) or '').endswith('Parameter.empty') for x in ls)
+
+    def _is_default_ref(node, e) -> bool:
+        ls = _leafs(node, e)
+        return bool(ls) and all((dotted(x) or '').endswith('.default') for x in ls)
+
+    def _has_default(guards) -> Optional[bool]:
+        for c, pol in guards:
+            if isinstance(c, ast.Compare) and len(c.ops) == 1 and isinstance(c.ops[0], (ast.Is, ast.IsNot)):
+                nodes = cfg_b.nodes_of(c)
+                nd = nodes[0] if nodes else cfg_b.entry
+                l, r = c.left, c.comparators[0]
+                for x, y in ((l, r), (r, l)):
+                    if _is_default_ref(nd, x) and _is_empty_ref(nd, y):
+                        return isinstance(c.ops[0], ast.IsNot) == pol
+        return None
     okd = False
-    for x in walk_own(bpm.node):
-        if isinstance(x, ast.IfExp) and norm(x.body).endswith('.default') and isinstance(x.orelse, ast.Constant) and x.orelse.value is Ellipsis \
-                and 'default is not inspect.Parameter.empty' in norm(x.test):
-            okd = True
-    ck.ob('REQ-DEFAULT', 'a documented parameter is required iff it has no default', okd)
+    whyd = 'no field-definition store found'
+    for n_ in cfg_b.stmt_nodes():
+        a_ = n_.ast
+        if isinstance(a_, ast.Assign) and isinstance(a_.targets[0], ast.Subscript) and isinstance(a_.value, ast.Tuple) and len(a_.value.elts) == 2:
+            alts = fl_b.alts(n_, a_.value.elts[1])
+            seen = set()
+            bad = []
+            for al in alts:
+                hd = _has_default(al.guards)
+                if (dotted(al.expr) or '').endswith('.default') and hd is True:
+                    seen.add('default')
+                elif isinstance(al.expr, ast.Constant) and al.expr.value is Ellipsis and hd is False:
+                    seen.add('required')
+                else:
+                    bad.append(al.text()[:80])
+            okd = seen == {'default', 'required'} and not bad
+            whyd = ' | '.join(al.text()[:70] for al in alts)
+    ck.ob('REQ-DEFAULT', 'a documented parameter is required iff it has no default', okd, sample={'field_default': whyd})
     if not okd:
         ck.finding('REQ-DEFAULT', bpm.qualname, 'required/default mapping', bpm.module.rel, bpm.node.lineno,
-                   'a field must be required (…) iff the parameter has no default, and carry the default otherwise')
+                   f'a field must be required (…) iff the parameter has no default, and carry the default otherwise; found: {whyd}')
     # "a request that adds an unlisted name is always refused": the binder must see the params exactly as sent
     from .c04 import _ctx_rules
     for b in bind_methods(prog):
